@@ -297,6 +297,14 @@ impl Iterator for ReluctantRepeatIterator<'_> {
                 // no iteration at all comes first
                 return Some(self.start);
             }
+        } else {
+            // what followed the position delivered last has been given up:
+            // the groups it captured are forgotten
+            let delivered = self
+                .iterations
+                .last()
+                .map_or(self.start, |last| last.position);
+            self.matcher.clear_captured_groups_beyond(delivered);
         }
         loop {
             let (here, progressed) = match self.iterations.last() {
